@@ -160,3 +160,59 @@ pub fn apply_patches(planes: &mut [Vec<f64>], fw: usize, fh: usize, n_colour: us
         }
     }
 }
+
+/// One quantised spline of the spline dictionary (LfGlobal, frame flag kSplines).
+#[derive(Clone, Debug)]
+pub struct QuantSpline {
+    pub start: (i64, i64),
+    /// control points after the start point, as absolute positions
+    pub points: Vec<(i64, i64)>,
+    /// quantised DCT32 of the colour along the spline, 3 channels
+    pub colour_dct: [[i32; 32]; 3],
+    pub sigma_dct: [i32; 32],
+}
+
+/// Serialises a spline dictionary: 6 contexts (0 quantisation adjustment, 1 starting positions,
+/// 2 number of splines - 1, 3 number of control points, 4 control point double-deltas, 5 DCT coefficients).
+pub fn write_splines(splines: &[QuantSpline], quant_adjust: i32, opts: &CodeOpts) -> BitWriter {
+    assert!(!splines.is_empty());
+    let mut s: Vec<Sym> = vec![];
+    let mut v = |ctx: u32, value: u32| s.push(Sym::Val { ctx, value });
+    v(2, splines.len() as u32 - 1);
+    let mut prev = (0i64, 0i64);
+    for (i, sp) in splines.iter().enumerate() {
+        if i == 0 {
+            assert!(sp.start.0 >= 0 && sp.start.1 >= 0);
+            v(1, sp.start.0 as u32);
+            v(1, sp.start.1 as u32);
+        } else {
+            v(1, pack_signed((sp.start.0 - prev.0) as i32));
+            v(1, pack_signed((sp.start.1 - prev.1) as i32));
+        }
+        prev = sp.start;
+    }
+    v(0, pack_signed(quant_adjust));
+    for sp in splines {
+        v(3, sp.points.len() as u32);
+        let mut cur = sp.start;
+        let mut delta = (0i64, 0i64);
+        for &p in &sp.points {
+            let d = (p.0 - cur.0, p.1 - cur.1);
+            v(4, pack_signed((d.0 - delta.0) as i32));
+            v(4, pack_signed((d.1 - delta.1) as i32));
+            delta = d;
+            cur = p;
+        }
+        for c in 0..3 {
+            for k in 0..32 {
+                v(5, pack_signed(sp.colour_dct[c][k]));
+            }
+        }
+        for k in 0..32 {
+            v(5, pack_signed(sp.sigma_dct[k]));
+        }
+    }
+    let mut w = BitWriter::new();
+    encode_stream(&mut w, 6, &s, opts);
+    w
+}
